@@ -17,7 +17,8 @@
    [site_le] [mut_le] [edge_le] [mig_le]  the documented key orders (original row id last). *)
 From Coq Require Import List ZArith Permutation Sorted.
 From TskVerif Require Import Base.Common C07.Model C07.ListLemmas C07.CmpLemmas C07.SortProofs
-     C07.RaggedProofs C07.TopProofs C07.IdemProofs C07.Refuted C07.Examples.
+     C07.RaggedProofs C07.TopProofs C07.IdemProofs C07.PartialProofs C07.MutParentsProofs C07.SweepProofs
+     C07.IndexProofs C07.Refuted C07.Examples.
 Import ListNotations.
 Open Scope Z_scope.
 
@@ -73,9 +74,112 @@ Theorem sort_fixed_point_sorted : forall Q, qsorts_ok Q -> forall t mds gds,
   in_sort_order t -> no_key_ties t -> table_sort Q None t = Ok t.
 Proof. exact sort_fixed_point. Qed.
 
+(* partial sorts.  tsk_table_sorter_sort_edges with start = k on an edge table WITHOUT metadata:
+   rows before k untouched, rows from k on a sorted permutation of the old ones, metadata
+   columns unchanged.  (With edge metadata this is false: sort_edge_start_metadata_refuted.) *)
+Theorem sort_edge_start_prefix_untouched : forall Q, qsorts_ok Q -> forall t start,
+  t_emd t = [] -> t_eoff t = repeat 0 (S (length (t_edges t))) ->
+  0 <= start <= zlen (t_edges t) ->
+  (forall e, In e (t_edges t) -> 0 <= e_parent e < zlen (t_nodes t)) ->
+  exists es',
+    sort_edges Q start t = Ok (set_edges t (firstn (Z.to_nat start) (t_edges t) ++ es') [] (t_eoff t)) /\
+    Permutation (skipn (Z.to_nat start) (t_edges t)) es' /\
+    Sorted (edge_le (map n_time (t_nodes t))) es'.
+Proof. exact sort_edges_start_no_metadata. Qed.
+
+(* sort(edge_start, site_start = len(sites), mutation_start = len(mutations)) leaves sites,
+   mutations, nodes, individuals, populations untouched for every qsort and every edge_start *)
+Theorem sort_skip_sites_untouched : forall Q es t t',
+  py_sort Q es (zlen (t_sites t)) (zlen (t_muts t)) t = Ok t' ->
+  t_sites t' = t_sites t /\ t_muts t' = t_muts t /\ same_nodes_inds_pops t t'.
+Proof. exact sort_skip_sites_untouched_proof. Qed.
+
 (* the merge sort used for execution satisfies the qsort assumptions (they are consistent) *)
 Theorem qsort_assumptions_satisfiable : qsorts_ok Qmerge /\ qsorts_ok Qmerge_rev.
 Proof. exact (conj Qmerge_ok Qmerge_rev_ok). Qed.
+
+(* (e) compute_mutation_parents (tables.c 12348) on a valid, sorted, indexed table.
+   [valid_for_parents t insE outsE] is what TSK_CHECK_TREES establishes as far as this function
+   needs it: edges inside [0, L) with child/parent in range and the parent strictly older, no two
+   overlapping edges for one child, the two indexes list every edge ([insE]/[outsE] = the edge
+   rows in insertion / removal order) sorted by left / right, sites sorted by position inside
+   [0, L), mutations sorted by site with nodes in range.
+   Whenever the function returns Ok (i.e. not TSK_ERR_MUTATION_PARENT_AFTER_CHILD; the model's
+   fuel-exhausted outcome is excluded by the same hypothesis) only the parent column changed and,
+   for every site s and the k-th mutation of that site in table order, the new parent is
+   [nearest_above] in the tree covering the site ([parent_at edges position]): the latest
+   earlier row of the site on the same node, else the last row of the first ancestor carrying a
+   mutation of the site, else NULL; and it has a smaller row id.
+   Not proved (differential only, family [mutparents]): that on such a table the result is Ok
+   unless some nearest mutation above has a larger row id (the Err direction and fuel bound). *)
+Theorem mutation_parents_nearest : forall t t' insE outsE,
+  valid_for_parents t insE outsE ->
+  compute_mutation_parents t = Ok t' ->
+  length (t_muts t') = length (t_muts t) /\
+  (forall j m', nth_error (t_muts t') j = Some m' ->
+     exists m, nth_error (t_muts t) j = Some m /\ m' = mut_set_parent m (m_parent m')) /\
+  forall s site k, nth_error (t_sites t) s = Some site ->
+    (k < length (site_block (t_muts t) (Z.of_nat s)))%nat ->
+    let first := site_first (t_muts t) (Z.of_nat s) in
+    exists m', nth_error (t_muts t') (Z.to_nat first + k) = Some m' /\
+      nearest_above (parent_at (t_edges t) (s_pos site))
+                    (map m_node (site_block (t_muts t) (Z.of_nat s))) first k (m_parent m') /\
+      m_parent m' <= first + Z.of_nat k.
+Proof. exact mutation_parents_nearest_proof'. Qed.
+
+(* build_index (tables.c 11306), whenever it succeeds: only the index changes; both index columns
+   are permutations of the edge ids, the insertion order is sorted by left and the removal
+   order by right, and they list exactly the edge rows — the index hypotheses of
+   [valid_for_parents] above *)
+Theorem build_index_lists_every_edge_sorted : forall Q, qsorts_ok Q -> forall t t',
+  build_index Q t = Ok t' ->
+  exists ins outs insE outsE,
+    t' = set_index t (Some (ins, outs)) /\
+    Permutation (zseq 0 (length (t_edges t))) ins /\ Permutation (zseq 0 (length (t_edges t))) outs /\
+    rows_of (t_edges t) ins insE /\ rows_of (t_edges t) outs outsE /\
+    Sorted (fun a b => e_left a <= e_left b) insE /\ Sorted (fun a b => e_right a <= e_right b) outsE /\
+    (forall e, In e (t_edges t) <-> In e insE) /\ (forall e, In e (t_edges t) <-> In e outsE).
+Proof. exact build_index_spec. Qed.
+
+(* the same for ONE tree given as a parent array (any forest), without the edge sweep *)
+Theorem mutation_parents_one_tree :
+  forall fuel parent par (rank : Z -> Z) M right sites muts bottom mparent sid' muts' mid' bottom' mparent',
+  arr_is parent par ->
+  (forall v, 0 <= v < zlen parent -> par v = NULL \/ (0 <= par v < zlen parent /\ rank v < rank (par v))) ->
+  (forall v, 0 <= v < zlen parent -> rank v <= M) ->
+  arr_is bottom (fun _ => NULL) -> zlen parent = zlen bottom ->
+  arr_is mparent (fun _ => NULL) -> zlen muts <= zlen mparent ->
+  (forall m, In m muts -> 0 <= m_node m < zlen parent /\ 0 <= m_site m) ->
+  Sorted (fun a b => m_site a <= m_site b) muts ->
+  Forall (fun s => s_pos s < right) sites ->
+  sites_loop fuel parent right sites 0 muts 0 bottom mparent
+    = Ok (([], sid'), (muts', mid'), (bottom', mparent')) ->
+  arr_is bottom' (fun _ => NULL) /\
+  exists fm', arr_is mparent' fm' /\ zlen mparent' = zlen mparent /\
+    forall s k, 0 <= s < zlen sites -> (k < length (site_block muts s))%nat ->
+      let first := site_first muts s in
+      nearest_above par (map m_node (site_block muts s)) first k (fm' (first + Z.of_nat k)) /\
+      fm' (first + Z.of_nat k) <= first + Z.of_nat k.
+Proof. exact mutation_parents_nearest_proof. Qed.
+
+(* the per-site body alone (any block of consecutive rows, any position in the table) *)
+Theorem mutation_parents_site_nearest :
+  forall fuel parent par (rank : Z -> Z) M nodes_of first bottom mparent fm bottom' mparent',
+  arr_is parent par ->
+  (forall v, 0 <= v < zlen parent -> par v = NULL \/ (0 <= par v < zlen parent /\ rank v < rank (par v))) ->
+  (forall v, 0 <= v < zlen parent -> rank v <= M) ->
+  arr_is bottom (fun _ => NULL) -> zlen parent = zlen bottom ->
+  arr_is mparent fm -> (forall i, in_block first (zlen nodes_of) i -> fm i = NULL) ->
+  (forall u, In u nodes_of -> 0 <= u < zlen parent) ->
+  0 <= first -> first + zlen nodes_of <= zlen mparent ->
+  do_site fuel parent nodes_of first bottom mparent = Ok (bottom', mparent') ->
+  arr_is bottom' (fun _ => NULL) /\ zlen bottom' = zlen bottom /\ zlen mparent' = zlen mparent /\
+  exists fm', arr_is mparent' fm' /\
+    (forall i, ~ in_block first (zlen nodes_of) i -> fm' i = fm i) /\
+    (forall k, (k < length nodes_of)%nat ->
+       nearest_above par nodes_of first k (fm' (first + Z.of_nat k)) /\
+       fm' (first + Z.of_nat k) <= first + Z.of_nat k).
+Proof. exact do_site_correct. Qed.
 
 (* (f) F11: canonicalise is not invariant under the row order of two sites that share a
    position (f11_b is f11_a with the two site rows exchanged and mutation.site following) *)
